@@ -177,7 +177,10 @@ def r03b(rep, F, fns, rule='R03b', frozen=25):
 
 def r03d(rep, F, fns):
     rep.rule('R03d', 'every local obtained from allocState that is not handed over (stored, appended, captured, returned) is '
-                     'released by freeState on every CFG path to every return; never released twice on one path')
+                     'released by freeState on every CFG path to every return; never released twice on one path.  The same pairing holds '
+                     'for temporaries kept in a field of a local aggregate (tgi.xstate = allocState() ... freeState(tgi.xstate)) and for '
+                     'scratch objects (T *x = new T(...) that is never stored, returned, captured or passed to anything but a query): '
+                     'deleted on every path to every return')
     n = 0
     for f in fns:
         cl = P.TempStates(f)
